@@ -3348,11 +3348,45 @@ impl<'a> Visitor<'a, (bool, DataType)> for FlattenOptionalVisitor {
 impl DataType {
     /// Return a type with non-optional subtypes, it may be optional if one of the
     pub fn flatten_optional(&self) -> DataType {
-        let (is_optional, flat) = self.accept(FlattenOptionalVisitor);
+        let (is_optional, flat) = self.visit_positionally(&FlattenOptionalVisitor);
         if is_optional {
             DataType::optional(flat)
         } else {
             flat
+        }
+    }
+}
+
+impl DataType {
+    /// Visit the sub-types by position.
+    /// The generic `accept` identifies visited nodes with `==` and `Hash`, but `==` on `DataType`
+    /// is set equality (`int[1 3] == float{1, 2, 3}`) while `Hash` is structural, so that
+    /// two distinct fields could be confused, depending on the state of the hasher.
+    fn visit_positionally<'a, T: Clone, V: Visitor<'a, T>>(&'a self, visitor: &V) -> T {
+        match self {
+            DataType::Struct(s) => visitor.structured(
+                s.fields
+                    .iter()
+                    .map(|(s, t)| (s.clone(), t.visit_positionally(visitor)))
+                    .collect(),
+            ),
+            DataType::Union(u) => visitor.union(
+                u.fields
+                    .iter()
+                    .map(|(s, t)| (s.clone(), t.visit_positionally(visitor)))
+                    .collect(),
+            ),
+            DataType::Optional(o) => visitor.optional(o.data_type().visit_positionally(visitor)),
+            DataType::List(l) => visitor.list(l.data_type().visit_positionally(visitor), l.size()),
+            DataType::Set(s) => visitor.set(s.data_type().visit_positionally(visitor), s.size()),
+            DataType::Array(a) => {
+                visitor.array(a.data_type().visit_positionally(visitor), a.shape())
+            }
+            DataType::Function(f) => visitor.function(
+                f.domain().visit_positionally(visitor),
+                f.co_domain().visit_positionally(visitor),
+            ),
+            primitive => visitor.primitive(primitive),
         }
     }
 }
